@@ -1065,9 +1065,10 @@ func (c *cluster) handleNodeAction(nodeAction nodeAction) error {
 	c.logger.Printf("wait for jobResult")
 	jobResult := <-j.result
 
-	// Make sure j.run() didn't return an error.
-	if eg.Wait() != nil {
-		return errors.Wrap(err, "running job")
+	// j.run() reports the job as aborted before it returns an error, so
+	// the job is completed below either way.
+	if err := eg.Wait(); err != nil {
+		c.logger.Printf("running job error: err=%s", err)
 	}
 
 	c.logger.Printf("received jobResult: %s", jobResult)
@@ -1262,6 +1263,21 @@ func (c *cluster) completeCurrentJob(state string) error {
 	return c.unprotectedCompleteCurrentJob(state)
 }
 
+// abortCurrentJob ends the running resizeJob as aborted. The job is
+// completed by handleNodeAction, which is waiting for its outcome.
+func (c *cluster) abortCurrentJob() error {
+	c.mu.RLock()
+	defer c.mu.RUnlock()
+	if !c.unprotectedIsCoordinator() {
+		return ErrNodeNotCoordinator
+	}
+	if c.currentJob == nil {
+		return ErrResizeNotRunning
+	}
+	c.currentJob.finish(resizeJobStateAborted)
+	return nil
+}
+
 func (c *cluster) unprotectedCompleteCurrentJob(state string) error {
 	if !c.unprotectedIsCoordinator() {
 		return ErrNodeNotCoordinator
@@ -1394,10 +1410,13 @@ func (c *cluster) followResizeInstruction(instr *ResizeInstruction) error {
 func (c *cluster) markResizeInstructionComplete(complete *ResizeInstructionComplete) error {
 
 	j := c.job(complete.JobID)
+	if j == nil {
+		return fmt.Errorf("resize job %d not found", complete.JobID)
+	}
 
 	// Abort the job if an error exists in the complete object.
 	if complete.Error != "" {
-		j.result <- resizeJobStateAborted
+		j.finish(resizeJobStateAborted)
 		return errors.New(complete.Error)
 	}
 
@@ -1412,7 +1431,7 @@ func (c *cluster) markResizeInstructionComplete(complete *ResizeInstructionCompl
 	j.IDs[complete.Node.ID] = true
 
 	if !j.nodesArePending() {
-		j.result <- resizeJobStateDone
+		j.finish(resizeJobStateDone)
 	}
 
 	return nil
@@ -1432,6 +1451,9 @@ type resizeJob struct {
 	Broadcaster  broadcaster
 
 	action string
+
+	// result receives the outcome of the job. It is buffered so that
+	// reporting an outcome never blocks a message handler.
 	result chan string
 
 	mu    sync.RWMutex
@@ -1468,7 +1490,7 @@ func newResizeJob(existingNodes []*Node, node *Node, action string) *resizeJob {
 		ID:     rand.Int63(),
 		IDs:    ids,
 		action: action,
-		result: make(chan string),
+		result: make(chan string, 1),
 		Logger: logger.NopLogger,
 	}
 }
@@ -1490,17 +1512,26 @@ func (j *resizeJob) run() error {
 	// Job can be considered done in the case where it doesn't require any action.
 	if !j.nodesArePending() {
 		j.Logger.Printf("resizeJob contains no pending tasks; mark as done")
-		j.result <- resizeJobStateDone
+		j.finish(resizeJobStateDone)
 		return nil
 	}
 
 	j.Logger.Printf("distribute tasks for resizeJob")
 	err := j.distributeResizeInstructions()
 	if err != nil {
-		j.result <- resizeJobStateAborted
+		j.finish(resizeJobStateAborted)
 		return errors.Wrap(err, "distributing instructions")
 	}
 	return nil
+}
+
+// finish reports the outcome of the job to the coordinator's
+// handleNodeAction, which reads one outcome. Later ones are dropped.
+func (j *resizeJob) finish(state string) {
+	select {
+	case j.result <- state:
+	default:
+	}
 }
 
 // isComplete return true if the job is any one of several completion states.
